@@ -94,6 +94,16 @@ def gen(seed, tier):
                 s1, s2 = s2, s1
             ty = rng.choice(tys)
             out.append(ew2_line(op, ty, s1, labels(rng, s1, ty, op, False), s2, labels(rng, s2, ty, op, True)))
+    # long operands (blocked loops must not lose a tail), equal shapes and stretched against unit axes
+    big = [([33], [33]), ([65], [1]), ([1], [40]), ([5, 7], [5, 7]), ([5, 7], [7]), ([9, 8], [9, 1]), ([2, 17], [1, 17]),
+           ([3, 4, 3], [4, 1]), ([100], [100]), ([2, 3, 2, 3], [2, 3, 2, 3])]
+    for op in LIFT + ZIP:
+        tys = types_for(op)
+        for k, (s1, s2) in enumerate(big):
+            if tier == "quick" and (k + len(op)) % 3:
+                continue
+            ty = tys[k % len(tys)]
+            out.append(ew2_line(op, ty, s1, labels(rng, s1, ty, op, False), s2, labels(rng, s2, ty, op, True)))
     # values against the Z instances
     for op in ZMODEL:
         for k, (s1, s2) in enumerate(pairs):
